@@ -8,6 +8,7 @@ Reg == (1 :> NodeC("2.0", TRUE, Kids)) @@ (2 :> NodeC("2.0", TRUE, Kids)) @@ (3 
 Alpha == <<
   Send_(1, 0, 1, 0, Pa, TRUE), Send_(1, 0, 1, 0, Pb, TRUE), Send_(1, 0, 1, 1, Pa, TRUE), Send_(1, 1, 1, 0, Pa, TRUE),
   Send_(1, 1, 1, 1, Pb, TRUE), SendA(1, 1, 1, 0, Pb, TRUE),
+  Send_(1, 0, 1, 19, Pa, TRUE),                                        \* value type 19 = the number of the internal presentation type
   Send_(2, 0, 1, 0, Pa, TRUE), Send_(2, 0, 1, 0, Pb, TRUE), Send_(2, 1, 1, 0, Pa, TRUE),
   Send_(1, 0, 1, 0, Pa, FALSE), Send_(3, 0, 1, 0, Pa, TRUE), Send_(4, 0, 1, 0, Pa, TRUE),
   Recv_(1, 255, 3, 22, P1), Recv_(2, 255, 3, 22, P1), Recv_(3, 255, 3, 22, P1),
